@@ -1,12 +1,12 @@
 package chainsim
 
 import (
-	"math/big"
-	"os"
-	"time"
 	"crypto/sha256"
 	"encoding/binary"
 	"fmt"
+	"math/big"
+	"os"
+	"time"
 
 	"github.com/piotrnar/gocoin/lib/btc"
 	"verif/lib/vlib"
@@ -33,16 +33,16 @@ type key struct {
 
 // Gen builds blocks and transactions on top of reference-chain nodes.
 type Gen struct {
-	R     *vlib.Rand
-	P     refchain.Params
-	Ref   *refchain.Chain
-	views map[refchain.Hash]refchain.UTXO
-	keys  []key
-	extra uint64
+	R      *vlib.Rand
+	P      refchain.Params
+	Ref    *refchain.Chain
+	views  map[refchain.Hash]refchain.UTXO
+	keys   []key
+	extra  uint64
 	Blocks map[refchain.Hash]*refchain.Block // every block ever built (by hash)
 
 	scrTrue, scrP2SHTrue, scrP2WSHTrue []byte
-	KeepViews bool
+	KeepViews                          bool
 }
 
 func DefaultParams(seed uint64, testnet bool) refchain.Params {
@@ -251,7 +251,7 @@ func (g *Gen) SignTx(t *refchain.Tx, coins []refchain.Coin, bad int) {
 				if os.Getenv("VERIF_DEBUG_SIGN") != "" {
 					h := gtx.SignatureHash(coins[i].Script, i, 1)
 					ss := t.In[i].ScriptSig
-					sg := ss[1 : int(ss[0])]
+					sg := ss[1:int(ss[0])]
 					fmt.Printf("SIGNDBG prev=%x:%d sighash=%x verify=%v priv=%x pub=%x sig=%x\n", t.In[i].Prev.Hash[:4], t.In[i].Prev.Idx, h, btc.EcdsaVerify(ky.pub, sg, h), ky.priv, ky.pub, sg)
 				}
 				if i == bad {
@@ -341,8 +341,8 @@ type BlockSpec struct {
 	Version uint32
 	Txs     []*refchain.Tx // non-coinbase transactions (already signed)
 
-	CoinbaseScript []byte // override (default: BIP34 prefix + extranonce)
-	CoinbaseDelta  int64  // added to the claimed amount (default claim = subsidy + fees)
+	CoinbaseScript []byte           // override (default: BIP34 prefix + extranonce)
+	CoinbaseDelta  int64            // added to the claimed amount (default claim = subsidy + fees)
 	CoinbaseOuts   []refchain.TxOut // override outputs entirely
 	CoinbaseKind   Kind
 	Fees           uint64 // fees of Txs (caller computes)
